@@ -362,9 +362,13 @@ class Gen:
             st = [k for k in range(lo, hi) if re.search(kv['region_start'], lines[k])]
             if len(st) != 1:
                 raise Undecided(f'{fid}: region start /{kv["region_start"]}/ matches {len(st)} lines')
-            en = [k for k in range(st[0], hi) if re.search(kv['region_end'], lines[k])]
+            if 'region_end_excl' in kv:
+                # the region ends on the line BEFORE the first line matching this regex (e.g. the `)` closing a builder call)
+                en = [k - 1 for k in range(st[0] + 1, hi) if re.search(kv['region_end_excl'], lines[k])]
+            else:
+                en = [k for k in range(st[0], hi) if re.search(kv['region_end'], lines[k])]
             if not en:
-                raise Undecided(f'{fid}: region end /{kv["region_end"]}/ not found')
+                raise Undecided(f'{fid}: region end /{kv.get("region_end", kv.get("region_end_excl"))}/ not found')
             a, b = st[0], en[0]
             start_idx = sum(len(l) + 1 for l in lines[:a])
             end_idx = sum(len(l) + 1 for l in lines[:b + 1])
